@@ -120,6 +120,7 @@ type live struct {
 	readStamp  map[string]int64 // stamp of the read that set lastRead
 	pinnedAt   map[string]int64 // stamp at which a handle was first handed out (this process)
 	readerBusy map[int]bool
+	genStamp   int64 // stamp at which the current store (process generation) was constructed
 	pinCalls   map[string][]*pinCall // calls that can hand out a handle, per name (this process)
 	lastRead   map[string]int64      // model last access, store-clock unix seconds
 	isDeclared map[string]bool
@@ -448,6 +449,7 @@ func (l *live) construct() bool {
 		return false
 	}
 	l.generation++
+	l.genStamp = w.Stamp()
 	l.coalesceFrom = w.StampNow()
 	l.closed = false
 	l.handles = map[string]setec.Secret{}
@@ -1367,6 +1369,17 @@ func (l *live) close() {
 // restart closes the store and starts a new process from the cache.
 func (l *live) restart() {
 	w := l.w
+	if hs := SortedKeys(l.handles); len(hs) > 0 && l.t.Bool(1, 2) {
+		// a last read right before the shutdown (nothing else is going on):
+		// its stamp reaches the cache only through the shutdown's own write
+		n := hs[l.t.Choice(len(hs))]
+		if h := l.handles[n]; h != nil {
+			h.Get()
+			l.lastRead[n] = l.storeNow()
+			l.readStamp[n] = w.Stamp()
+			w.Tracef("read %q right before shutdown (store time %d)", n, l.storeNow())
+		}
+	}
 	l.close()
 	w.RunUntilQuiet(2000)
 	for i := 0; i < 20 && l.tasksBusy > 0; i++ {
@@ -1378,6 +1391,7 @@ func (l *live) restart() {
 		return
 	}
 	l.judgeShutdownDoc()
+	l.judgeShutdownStamps()
 	l.probeRestart()
 	w.S.Probe("restart")
 	w.Tracef("restart from cache: %s", shortDoc(string(w.Cache.LastGood())))
@@ -1402,6 +1416,43 @@ func (l *live) restart() {
 	l.prevDoc = map[string]uint32{}
 	l.absorbInitial(string(w.Cache.LastGood()))
 	l.construct()
+}
+
+// judgeShutdownStamps: C19 - a read refreshes the last-access time, "which
+// is persisted with the next cache write so that the rule holds across
+// restarts"; the poller's shutdown rewrites the cache, so after a clean
+// shutdown the document carries, for every name read by this process, a stamp
+// no older than that read.
+func (l *live) judgeShutdownStamps() {
+	if !l.o.Oracles["lastaccess"] {
+		return
+	}
+	w := l.w
+	w.Cache.mu.Lock()
+	n := len(w.Cache.Writes)
+	lastFailed := n > 0 && w.Cache.Writes[n-1].Err
+	w.Cache.mu.Unlock()
+	if lastFailed {
+		return // the document of the shutdown itself was lost: a cache may do that
+	}
+	doc, err := ParseDoc(w.Cache.LastGood())
+	if err != nil {
+		return
+	}
+	for _, name := range SortedKeys(doc) {
+		e := doc[name]
+		if e == nil {
+			continue
+		}
+		la, perr := strconv.ParseInt(e.LastAccess, 10, 64)
+		if perr != nil {
+			continue
+		}
+		if lr, ok := l.lastRead[name]; ok && l.readStamp[name] > l.genStamp && la < lr {
+			l.fail("lastaccess", "after a clean shutdown the cache records lastAccess %d for %q, but this process read it at %d: the refreshed stamp was not persisted, so the expiry rule does not hold across the restart", la, name, lr)
+		}
+	}
+	w.S.Probe("shutdown-stamps-checked")
 }
 
 // judgeShutdownDoc: C13 — after the poller has shut down the last document
